@@ -25,12 +25,13 @@ type script struct {
 }
 
 type outcome struct {
-	Sid    int      `json:"sid"`
-	Status string   `json:"status"` // ok | drift | stuck | error
-	Detail string   `json:"detail,omitempty"`
-	Notes  []string `json:"notes,omitempty"`
-	Lines  int      `json:"lines"`
-	Steps  int      `json:"steps"`
+	Sid     int      `json:"sid"`
+	Status  string   `json:"status"` // ok | drift | stuck | error
+	Detail  string   `json:"detail,omitempty"`
+	Timeout bool     `json:"timeout,omitempty"` // a wait timed out (stall or hang), as opposed to an immediate deviation
+	Notes   []string `json:"notes,omitempty"`
+	Lines   int      `json:"lines"`
+	Steps   int      `json:"steps"`
 }
 
 var caseOf = map[string]string{"qbid": "querybid", "group": "group", "should": "shouldbid", "reserve": "reserve",
@@ -40,18 +41,26 @@ var caseOf = map[string]string{"qbid": "querybid", "group": "group", "should": "
 // stimulus is applied only after the hooks reported the iteration that consumed the previous one and the
 // calls that iteration launched have reached their gates.
 type forced struct {
-	s       *scenario
-	wt      time.Duration
-	pc      string // loop | exit
-	parked  bool
-	gReady  bool // the parked group query has been answered
-	pending int  // stimuli applied that the loop has not consumed yet
-	cursor  int  // lines before cursor have been looked at for loop lines
-	drift   string
+	s        *scenario
+	wt       time.Duration
+	pc       string // loop | exit
+	parked   bool
+	gReady   bool // the parked group query has been answered
+	pending  int  // stimuli applied that the loop has not consumed yet
+	cursor   int  // lines before cursor have been looked at for loop lines
+	timedOut bool
+	released map[string]bool
 }
 
+// fail reports an immediate deviation from the script (no waiting involved).
 func (f *forced) fail(format string, a ...interface{}) error {
 	return fmt.Errorf(format, a...)
+}
+
+// timeout reports a wait that did not complete.
+func (f *forced) timeout(format string, a ...interface{}) error {
+	f.timedOut = true
+	return fmt.Errorf("timeout: "+format, a...)
 }
 
 // ensureStarted waits until every operation the loop reports in flight has reached its neighbour.
@@ -64,7 +73,7 @@ func (f *forced) ensureStarted(l line) error {
 		select {
 		case <-f.s.gates[op].started:
 		case <-time.After(f.wt):
-			return f.fail("operation %s reported in flight but its call never reached the neighbour", op)
+			return f.timeout("operation %s reported in flight but its call never reached the neighbour", op)
 		}
 	}
 	return nil
@@ -74,12 +83,12 @@ func (f *forced) ensureStarted(l line) error {
 func (f *forced) iteration() error {
 	i, ok := f.s.wait(f.cursor, is("case"), f.wt)
 	if !ok {
-		return f.fail("the loop did not consume a ready stimulus (pending=%d)", f.pending)
+		return f.timeout("the loop did not consume a ready stimulus (pending=%d)", f.pending)
 	}
 	c, _ := f.s.lineAt(i)["c"].(string)
 	j, ok := f.s.wait(i+1, func(l line) bool { return l["e"] == "select" || l["e"] == "exit" }, f.wt)
 	if !ok {
-		return f.fail("no select/exit line after case %s", c)
+		return f.timeout("no select/exit line after case %s", c)
 	}
 	f.cursor = j + 1
 	f.pending--
@@ -111,7 +120,7 @@ func (f *forced) run(steps []step) error {
 	// initial iteration report
 	j, ok := s.wait(0, is("select"), f.wt)
 	if !ok {
-		return f.fail("the order monitor did not start")
+		return f.timeout("the order monitor did not start")
 	}
 	f.cursor = j + 1
 	if err := f.ensureStarted(s.lineAt(j)); err != nil {
@@ -121,10 +130,31 @@ func (f *forced) run(steps []step) error {
 		select {
 		case <-s.gates["qbid"].started:
 		case <-time.After(f.wt):
-			return f.fail("existing-bid query never issued")
+			return f.timeout("existing-bid query never issued")
 		}
 	}
-	for _, st := range steps {
+	for i, st := range steps {
+		// in the model every reservation / pricing / broadcast that was started is answered before the monitor
+		// terminates: one the rest of the script never answers was not started in the model
+		for _, op := range []string{"reserve", "price", "bcast"} {
+			select {
+			case <-s.gates[op].started:
+			default:
+				continue
+			}
+			if f.released[op] {
+				continue
+			}
+			later := false
+			for _, x := range steps[i:] {
+				if x.A == "complete" && x.O == op {
+					later = true
+				}
+			}
+			if !later {
+				return f.fail("%s was started but the script never answers it", op)
+			}
+		}
 		switch st.A {
 		case "begin", "unres", "close":
 		case "complete":
@@ -136,9 +166,10 @@ func (f *forced) run(steps []step) error {
 				return f.fail("script completes %s but it was not called", st.O)
 			}
 			mark := s.nlines()
+			f.released[st.O] = true
 			g.release <- answer{r: st.R, p: st.P}
 			if _, ok := s.wait(mark, func(l line) bool { return l["e"] == "call" && l["c"] == callName[st.O] && l["ph"] == "end" }, f.wt); !ok {
-				return f.fail("call %s did not return", st.O)
+				return f.timeout("call %s did not return", st.O)
 			}
 			if f.pc == "loop" {
 				if st.O == "group" && f.parked {
@@ -182,10 +213,68 @@ func (f *forced) run(steps []step) error {
 	if f.pc == "loop" {
 		return f.fail("the script ended but the loop has not exited")
 	}
+	// the exit path waits for these; a script of the model completes them all
+	for _, op := range []string{"group", "reserve", "price", "bcast"} {
+		if op == "group" && f.parked {
+			continue
+		}
+		select {
+		case <-s.gates[op].started:
+			if !f.released[op] {
+				return f.fail("the script ended with %s in flight", op)
+			}
+		default:
+		}
+	}
 	if _, ok := s.wait(0, is("done"), f.wt); !ok {
-		return f.fail("the order monitor did not terminate after the script (pc=%s)", f.pc)
+		return f.timeout("the order monitor did not terminate after the script (pc=%s)", f.pc)
 	}
 	return nil
+}
+
+// onItsOwn continues an execution that left its script, still one stimulus at a time: every call the monitor has
+// outstanding succeeds, until the monitor is blocked with nothing in flight or has left the loop. (Then the caller
+// shuts it down.) What the code does after deviating is thereby observed instead of cut short by failures.
+func (f *forced) onItsOwn() {
+	if f.timedOut {
+		return
+	}
+	good := map[string]answer{"qbid": {r: "notfound"}, "group": {r: "ok"}, "should": {r: "yes"}, "reserve": {r: "ok"},
+		"price": {r: "ok", p: MaxPrice}, "bcast": {r: "ok"}}
+	for round := 0; round < 16; round++ {
+		progressed := false
+		for _, op := range opNames {
+			g := f.s.gates[op]
+			select {
+			case <-g.started:
+			default:
+				continue
+			}
+			if f.released[op] {
+				continue
+			}
+			f.released[op] = true
+			mark := f.s.nlines()
+			g.release <- good[op]
+			if _, ok := f.s.wait(mark, func(l line) bool { return l["e"] == "call" && l["c"] == callName[op] && l["ph"] == "end" }, f.wt); !ok {
+				return
+			}
+			progressed = true
+			if f.pc == "loop" {
+				if op == "group" && f.parked {
+					f.gReady = true
+				} else {
+					f.pending++
+				}
+			}
+			if f.settle() != nil {
+				return
+			}
+		}
+		if !progressed {
+			return
+		}
+	}
 }
 
 // runScript executes one script on a fresh service and returns the recorded lines up to "done".
@@ -209,17 +298,18 @@ func runScript(sc script, wt time.Duration) ([]line, outcome) {
 		out.Status, out.Detail = "error", err.Error()
 		return nil, out
 	}
-	f := &forced{s: s, wt: wt, pc: "loop", parked: mode == "catchup"}
+	f := &forced{s: s, wt: wt, pc: "loop", parked: mode == "catchup", released: map[string]bool{}}
 	err := f.run(sc.Steps)
 	out.Status = "ok"
 	if err != nil {
 		// bail out: let everything go and see whether the monitor still terminates; the execution is a real one
 		// and is judged like any other, but it is not the scripted one
-		out.Status, out.Detail = "drift", err.Error()
+		out.Status, out.Detail, out.Timeout = "drift", err.Error(), f.timedOut
+		f.onItsOwn()
 		s.cancel()
 		s.closeGates()
 		if _, ok := s.wait(0, is("done"), wt); !ok {
-			out.Status = "stuck"
+			out.Status, out.Timeout = "stuck", true
 		}
 	}
 	return s.cut(&out), out
